@@ -5,5 +5,7 @@
 set -e
 cd "$(dirname "$0")"
 export GOFLAGS=-mod=mod GOPROXY=off GOSUMDB=off GOTOOLCHAIN=local
-VERIF_WARM=1 ./check C01 quick --scale 0.02 >/dev/null 2>&1 || true
+./check C01 quick --scale 0.02 >/dev/null 2>&1 || true
+./check C19 quick --scale 0.1 >/dev/null 2>&1 || true
+git checkout -- evidence 2>/dev/null || true
 echo "setup done"
